@@ -1,5 +1,11 @@
 package e2
 
+import (
+	"fmt"
+	"reflect"
+	"sync"
+)
+
 // Wide exercises the built-in rules the other static types do not use, with
 // values that pass, fail and are empty; several values per rule kind so that
 // two clients inside the same rule at the same time work on different texts.
@@ -29,9 +35,20 @@ type Wide struct {
 
 func pick(v, salt int, l ...string) string { return l[(v+salt)%len(l)] }
 
+// longBadJSON: an invalid JSON text of about n bytes whose content depends on v (two clients inside the json rule at
+// the same time then work on different long texts).
+func longBadJSON(v, n int) string {
+	unit := fmt.Sprintf(`"k%d":'v%d', `, v, v*7)
+	s := "{"
+	for len(s) < n {
+		s += unit
+	}
+	return s
+}
+
 func mkWide(v int) *Wide {
 	w := &Wide{
-		Json:  pick(v, 0, "", `{"a":1}`, `{"a":`, `["x", 'WW`+strN(v%5)+`]`, `{"k`+strN(v%4)+`": nope}`),
+		Json:  pick(v, 0, "", `{"a":1}`, `{"a":`, `["x", 'WW`+strN(v%5)+`]`, `{"k`+strN(v%4)+`": nope}`, longBadJSON(v, 140), longBadJSON(v, 200), longBadJSON(v, 300)),
 		JsonM: pick(v, 1, "", `[1,2]`, `[1,2`, `{'q`+strN(v%3)+`'}`),
 		Email: pick(v, 2, "", "a@b.cn", "a@b", "x"+strN(v%4)+"@@y"),
 		When:  pick(v, 0, "", "2024-01-02 03:04:05", "2024-01-02", "24-1-2 3:4:5"),
@@ -116,4 +133,131 @@ func init() {
 	statics = append(statics,
 		typeInfo{"Node", func(v int) interface{} { return mkNode(v) }, []string{"", "v2"}},
 		typeInfo{"Big", func(v int) interface{} { return mkBig(v) }, []string{"", "v2"}})
+}
+
+// ---- Chain: ONE value whose graph contains hundreds of DISTINCT struct types (a pointer chain of run-time types),
+// more than the library's built-in cache holds: entries are evicted while the call that stored them is still running.
+
+var (
+	chainMu    sync.Mutex
+	chainTypes = map[int]reflect.Type{}
+)
+
+// chainType(d): struct{ Next *chainType(d-1) `valid:"exist"`; Note string `valid:"le=3"`; Name string `valid:"required"` }, distinct per d.
+func chainType(d int) reflect.Type {
+	chainMu.Lock()
+	defer chainMu.Unlock()
+	var build func(d int) reflect.Type
+	build = func(d int) reflect.Type {
+		if t, ok := chainTypes[d]; ok {
+			return t
+		}
+		fields := []reflect.StructField{}
+		if d > 0 {
+			fields = append(fields, reflect.StructField{Name: "Next", Type: reflect.PtrTo(build(d - 1)), Tag: `valid:"exist" v2:"required"`})
+		}
+		fields = append(fields,
+			reflect.StructField{Name: "Note", Type: reflect.TypeOf(""), Tag: reflect.StructTag(fmt.Sprintf(`valid:"le=3" lvl:"%d"`, d))},
+			reflect.StructField{Name: "Name", Type: reflect.TypeOf(""), Tag: `valid:"required" v2:"le=2"`})
+		t := reflect.StructOf(fields)
+		chainTypes[d] = t
+		return t
+	}
+	// build bottom-up in steps so that the recursion stays shallow
+	for i := 0; i <= d; i += 50 {
+		build(i)
+	}
+	return build(d)
+}
+
+func mkChain(v int) interface{} {
+	depth := []int{3, 20, 100, 3, 40, 10, 150, 600}[v%8]
+	var next reflect.Value
+	for d := 0; d <= depth; d++ {
+		p := reflect.New(chainType(d))
+		e := p.Elem()
+		if d > 0 {
+			e.FieldByName("Next").Set(next)
+		}
+		if (d+v)%7 == 0 {
+			e.FieldByName("Note").SetString("toolong")
+		}
+		if d != depth || v >= 8 {
+			e.FieldByName("Name").SetString("n")
+		}
+		next = p
+	}
+	return next.Interface()
+}
+
+func init() {
+	statics = append(statics, typeInfo{"Chain", mkChain, []string{"", "v2"}})
+}
+
+// ---- rule-text swarm for Var: every built-in rule with several argument variants (separators incl. the empty string and
+// multi-character ones, bounds, option sets, patterns) x a pool of values. The oracle process says what each pair yields alone;
+// no model of any rule is needed. Families are kept together so that one history can focus on one of them.
+
+var varFamilies [][2]int // [from,to) ranges of varRules per rule family
+
+func init() {
+	add := func(rules ...[]string) {
+		from := len(varRules)
+		varRules = append(varRules, rules...)
+		varFamilies = append(varFamilies, [2]int{from, len(varRules)})
+	}
+	one := func(l ...string) [][]string {
+		var o [][]string
+		for _, r := range l {
+			o = append(o, []string{r})
+		}
+		return o
+	}
+	seps := []string{"", "-", " ", ":", "/"}
+	var dt []string
+	for _, a := range seps {
+		for _, b := range seps {
+			for _, c := range seps {
+				dt = append(dt, "datetime='"+a+","+b+","+c+"'")
+			}
+		}
+	}
+	dt = append(dt, "datetime", "datetime=/", "datetime='/, ,/'", "datetime='- ,,:'", "datetime=', ,'", "datetime=' ,,'")
+	add(one(dt...)...)
+	add(one("date", "date=/", "date=.", "date=' '", "date='- '", "year2month", "year2month=/", "year2month=.", "year2month=' '", "year", "year=x")...)
+	add(one("ints", "ints=-", "ints=/", "ints=;", "ints=' '", "ints='1'", "unique", "int", "float")...)
+	var rng []string
+	nums := []string{"0", "1", "2", "3", "5", "10", "100"}
+	for i, a := range nums {
+		for _, b := range nums[i+1:] {
+			rng = append(rng, "to="+a+"~"+b, "oto="+a+"~"+b)
+		}
+		rng = append(rng, "ge="+a, "le="+a, "gt="+a, "lt="+a, "eq="+a, "noeq="+a)
+	}
+	add(one(rng...)...)
+	add(one("in=(a/b/c)", "in=(ab/c)", "in=(a/bc)", "in=(1/2/3)", "in=(12/3)", "in=(1/23)", "include=(ab/cd)", "include=(a/bcd)", "include=(abc/d)",
+		"prefix=ab", "prefix=a", "prefix=abc", "suffix=yz", "suffix=z", "suffix=xyz")...)
+	add(one("re='^a,b$'", "re='^a+$'", "re='^a{1,2}$'", "re='^[a-c]+$'", "re='^\\d+$'", "re='^\\d{1,3}$'", "re='('", "re='^x{0,3}$'|pattern",
+		"phone", "email", "idcard", "ip", "ipv4", "ipv6", "json", "required", "exist", "either=1", "botheq=1", "file", "dir")...)
+
+	dates := []string{}
+	for _, a := range seps {
+		for _, b := range seps {
+			c := b
+			if a == ":" {
+				c = "-"
+			}
+			dates = append(dates, "2023"+a+"01"+a+"02"+b+"10"+c+"00"+c+"00")
+		}
+	}
+	for _, d := range dates {
+		d := d
+		varVals = append(varVals, func() interface{} { return d })
+	}
+	for _, x := range []interface{}{"2023-01-02", "2023/01/02", "2023.01", "2023 01", "2023", "1,2,3", "1-2-3", "1/2/x", "1 2 3", "a", "ab", "abc", "abxyz", "bc", "c",
+		"12", "23", "3", "aaa", "a,b", "10.0.0.1", "::1", "a@b.cn", "13812345678", "110101199003071234", `{"a":1}`, `{"a":`,
+		0, 1, 2, 3, 5, 10, 100, 101, -1, 2.5, uint8(3), int64(10), []int{1, 2, 3}, []int{1, 1}, []string{"a", "b", "c"}, []string{"1", "2"}, []float64{1.5, 1.5}, true} {
+		x := x
+		varVals = append(varVals, func() interface{} { return x })
+	}
 }
